@@ -546,7 +546,12 @@ def run(tier: str) -> int:
             head = [c for c in hoisted.children if isinstance(c, Tag) and c.name == "head"][0]
             want = TagList(*head.children[1:]).get_html_string()       # after <meta charset>
         except Exception as e:  # noqa: BLE001
-            raise core.Infra(f"same-as-document oracle raised {type(e).__name__}: {e}")
+            # the real code raised on a well-formed input: that is a failure of the statement, not of the harness
+            ck.holds_checked += 1
+            ck.py_violation("same_as_document " + repr([canon(d) for d in deps])[:300], f"raised {type(e).__name__}: {e}",
+                            f"rendering well-formed dependencies raised {type(e).__name__}: {e}",
+                            py=f"deps={[ops_json.canon_sdep(d) for d in deps]!r}; kwargs={kw!r}")
+            continue
         n_same += 1
         ck.holds_checked += 1
         if txt != want:
